@@ -187,6 +187,26 @@ func nasConstructors(ctx *Ctx, tab *refnas.Table) {
 					want("ULNASTransport", "DNN", cs, opts["DNN"], append([]byte{byte(len(dnn))}, []byte(dnn)...))
 				}
 				want("ULNASTransport", "S-NSSAI", cs, opts["SNSSAI"], append([]byte{byte(sn.Sst)}, hx(sn.Sd)...))
+				if psi <= 16 && rt == 1 && dnn == "internet" {
+					// a slice without (or with a short) slice differentiator right after one with a full SD: the IE is the SST
+					// alone, or the SST with the given SD octets zero-padded - never octets remembered from the earlier call
+					for _, shortSd := range []string{"", "0a"} {
+						sn2 := &models.Snssai{Sst: sn.Sst, Sd: shortSd}
+						cs2 := cs + fmt.Sprintf(" ; then the same with sd=%q", shortSd)
+						var b2 []byte
+						if perr := recoverErr(func() { b2 = nasTestpacket.GetUlNasTransport_PduSessionEstablishmentRequest(uint8(psi), rt, dnn, sn2) }); perr != nil {
+							r.Violate("constructor/ULNASTransport/panic", cs2, perr.Error(), nil)
+							continue
+						}
+						if _, o2, ok2 := parse("ULNASTransport", b2, cs2); ok2 {
+							got := o2["SNSSAI"]
+							padded := append(append([]byte{byte(sn2.Sst)}, hx(shortSd)...), 0, 0, 0)[:4]
+							if !bytes.Equal(got, []byte{byte(sn2.Sst)}) && !bytes.Equal(got, padded) {
+								r.Violate("constructor/ULNASTransport/S-NSSAI-depends-on-earlier-call", cs2, fmt.Sprintf("S-NSSAI on the wire %x, given sst=%d sd=%q", got, sn2.Sst, shortSd), nil)
+							}
+						}
+					}
+				}
 				im, iopts, ok := parse("PDUSessionEstablishmentRequest", mand[4], cs+" [container]")
 				if ok {
 					want("PDUSessionEstablishmentRequest", "PDU-session-identity", cs, im[1], []byte{byte(psi)})
